@@ -133,8 +133,8 @@ PROPS["C12"] = {
 }
 
 PROPS["C20"] = {
-    "level_text": "Theorems for every input: k-means returns exactly min(k,n) centroids, one in-range assignment per vector, nil iff nothing to cluster, first-arg-min indices valid, determinism (a function); quantisers preserve length, int8 refuses to work untrained. The bit-exact transcriptions of clustering.go (stride initialisation, first arg-min, single-pass update, empty clusters keep their centroid, maxIter) and quantizer.go (binary16 rounding via SpecFloat at (11,16), math.Round half away from zero, scale by absMax) are compared with the code on training sets with duplicates, k>n, k=n, collinear data and boundary values; input immutability, run-to-run determinism and 'trained twice => search-identical' are observed on the implementation; finiteness, bounding box (Euclidean family) and the absMax/254 bound are evaluated on the implementation's outputs by the extracted oracle. The float16 clause is PROVED for every float32 in the binary16 normal range (the round trip is the round-to-nearest-even binary16 value, |deq(q x) - x| <= 2^-11 |x| over the reals; through the Flocq bridge) and is also a run-time oracle on the implementation's outputs (every binade, binade boundaries and rounding ties generated).",
-    "level_note": "Trusted: as C02 plus x448/float16 = IEEE round-to-nearest-even (exercised on boundary values). The float16 bound is proved through Flocq (stdlib real-number axioms, named in trusted_base); bounding box and absMax/254 are checked per run on outputs, not proved over floats (partial).",
+    "level_text": "Theorems for every input: k-means returns exactly min(k,n) centroids, one in-range assignment per vector, nil iff nothing to cluster, first-arg-min indices valid, determinism (a function); quantisers preserve length, int8 refuses to work untrained. The bit-exact transcriptions of clustering.go (stride initialisation, first arg-min, single-pass update, empty clusters keep their centroid, maxIter) and quantizer.go (binary16 rounding via SpecFloat at (11,16), math.Round half away from zero, scale by absMax) are compared with the code on training sets with duplicates, k>n, k=n, collinear data and boundary values; input immutability, run-to-run determinism and 'trained twice => search-identical' are observed on the implementation; finiteness, bounding box (Euclidean family) and the absMax/254 bound are evaluated on the implementation's outputs by the extracted oracle. The float16 clause is PROVED for every float32 in the binary16 normal range (the round trip is the round-to-nearest-even binary16 value, |deq(q x) - x| <= 2^-11 |x| over the reals; through the Flocq bridge) and is also a run-time oracle on the implementation's outputs (every binade, binade boundaries and rounding ties generated). The int8 clause is PROVED as well: for every finite float32 x with |x| <= absMax the code lies in [-127,127] and |deq(q x) - x| <= absMax/254 + absMax*2^-21 + 2^-149 over the reals (Proofs/Int8P.v: Flocq's Bdiv/Bmult correctness for the four float32 operations, one half-away rounding, one exact conversion), lifted to whole vectors through q8/dq8.",
+    "level_note": "Trusted: as C02 plus x448/float16 = IEEE round-to-nearest-even (exercised on boundary values). The float16 and int8 bounds are proved through Flocq (stdlib real-number axioms, named in trusted_base); the k-means bounding box is checked per run on outputs, not proved over floats (partial).",
     "correspondence": "clustering.go ~ Model.KMeans; quantizer.go ~ Model.Quantizer",
     "nontrivial_min_tokens": 12,
 }
